@@ -108,14 +108,17 @@ func (cb *CircuitBreaker) Execute(fn func() error) error {
 		return err
 	}
 
+	// fn may not return: it panics (with any value, nil included) or its goroutine exits. The admitted
+	// request is settled as a failure then as well, and the unwinding goes on untouched.
+	returned := false
 	defer func() {
-		if r := recover(); r != nil {
+		if !returned {
 			cb.afterRequest(false)
-			panic(r)
 		}
 	}()
 
 	err = fn()
+	returned = true
 	cb.afterRequest(err == nil)
 	return err
 }
